@@ -86,7 +86,8 @@ func GetScanSlice(types []*sql.ColumnType) []interface{} {
 			scanVal := uint64(0)
 			scanSlice = append(scanSlice, &scanVal)
 		case ScanTypeRawBytes:
-			scanVal := ""
+			// character and binary columns may hold NULL, which cannot be scanned into a string
+			scanVal := sql.NullString{}
 			scanSlice = append(scanSlice, &scanVal)
 		case ScanTypeUnknown:
 			scanVal := new(interface{})
